@@ -1,5 +1,5 @@
 use crate::*;
-use numpy::{PyArray, PyReadonlyArrayDyn, PyReadwriteArrayDyn};
+use numpy::{PyArray, PyReadonlyArrayDyn};
 use pyo3::exceptions::PyTypeError;
 use pyo3::prelude::*;
 
